@@ -14,17 +14,18 @@ OUT=${OUT:-/tmp/mutscore.log}
 S=$(mktemp -d /tmp/mutscore.XXXXXX)
 trap 'rm -rf $S' EXIT
 git clone -q /repo $S/repo || exit 2
+git clone -q /repo $S/orig || exit 2   # the pristine sources the mutations are listed and generated from
 export GOSYM_EVIDENCE_DIR=$S/evidence; mkdir -p $S/evidence
 ORDER="C05 C09 C11 C13 C19 C10 C14 C12 C08 C17 C20 C01 C18 C04 C15 C02 C03 C07 C06 C16"
 # the candidate list: file:id, shuffled deterministically
-for f in $FILES; do /verif/bin/mutgen list /repo/$f | awk -v f=$f '{print f" "$0}'; done | python3 -c "
+for f in $FILES; do /verif/bin/mutgen list $S/orig/$f | awk -v f=$f '{print f" "$0}'; done | python3 -c "
 import sys,random
 l=sys.stdin.read().splitlines(); random.Random($SEED).shuffle(l); print('\n'.join(l))" > $S/cands
 done=0
 while read f id line kind text; do
   [ $done -ge $N ] && break
   (cd $S/repo && git checkout -q -- . && git clean -fdq)
-  /verif/bin/mutgen apply /repo/$f $id > $S/m.go || continue
+  /verif/bin/mutgen apply $S/orig/$f $id > $S/m.go || continue
   cp $S/m.go $S/repo/$f
   (cd $S/repo && go build ./... 2>/dev/null) || { echo "$f:$line $kind [$text] NOBUILD" >> $OUT; continue; }
   if ! (cd $S/repo && timeout 300 go test -vet=off -count=1 -timeout 4m ./... >/dev/null 2>&1); then
